@@ -4,8 +4,10 @@ import (
 	"fmt"
 	"math/rand"
 	"sync"
+	"sync/atomic"
 	"testing"
 	"testing/synctest"
+	"time"
 
 	"github.com/hashicorp/raft"
 
@@ -101,11 +103,39 @@ func runVote(c vcase, col *table.Collector) vobs {
 		}
 	}
 	base := s.D.Ops()
+	// a stable store whose writes take a moment, and somebody who keeps asking the server for its term
+	// meanwhile (CurrentTerm() is answered from memory, whatever the main loop is doing): a term the
+	// server has shown must survive a crash at any point of the write that was in flight
+	s.D.StableDelay = time.Millisecond
 	if err := s.Start(); err != nil {
 		o.violation = append(o.violation, "start: "+err.Error())
 		return o
 	}
 	synctest.Wait()
+	var shown atomic.Uint64 // largest term any live incarnation showed through CurrentTerm()
+	obsStop, obsDone := make(chan struct{}), make(chan struct{})
+	go func() {
+		defer close(obsDone)
+		tk := time.NewTicker(300 * time.Microsecond)
+		defer tk.Stop()
+		for {
+			select {
+			case <-obsStop:
+				return
+			case <-tk.C:
+				r, live := s.Live()
+				if !live {
+					continue
+				}
+				ct := r.CurrentTerm()
+				if r2, live2 := s.Live(); live2 && r2 == r && ct > shown.Load() {
+					// still the live incarnation after the reading: the reading precedes any crash
+					shown.Store(ct)
+				}
+			}
+		}
+	}()
+	defer func() { close(obsStop); <-obsDone }()
 	startOps := s.D.Ops() // NewRaft itself writes the term once
 	// Fake peers A and B: they hold every RequestVote of S until the end of the message
 	// sequence and then grant it, so that S's own candidacy (message 't') can succeed late.
@@ -199,7 +229,10 @@ func runVote(c vcase, col *table.Collector) vobs {
 			rr = s.Tr.Inject(&raft.AppendEntriesRequest{RPCHeader: Hdr(m.cand), Term: term, Leader: []byte(m.cand)}, nil)
 		case 't':
 			rr = s.Tr.Inject(&raft.TimeoutNowRequest{RPCHeader: Hdr("A")}, nil)
-			synctest.Wait() // the candidacy runs up to the point where its requests wait at the peers
+			// the candidacy runs up to the point where its requests wait at the peers (its stable-store
+			// writes take a millisecond each)
+			time.Sleep(20 * time.Millisecond)
+			synctest.Wait()
 			col.Cov("own-candidacy", 1)
 		}
 		resp = rr.Response
@@ -241,10 +274,12 @@ func runVote(c vcase, col *table.Collector) vobs {
 			if got := s.R.CurrentTerm(); got != dT {
 				o.violation = append(o.violation, fmt.Sprintf("restart-wrong-term: restarted with term %d, durable %d", got, dT))
 			}
-			if got := s.R.CurrentTerm(); got < maxTerm {
+			if got, sh := s.R.CurrentTerm(), shown.Load(); got < sh {
 				// a crash before the term write loses a term nobody was told about: only terms
-				// that were reported count
+				// that were reported count - CurrentTerm() had reported this one
+				o.violation = append(o.violation, fmt.Sprintf("reported-term-decrease: CurrentTerm() showed term %d while message %d %v was being handled; after the crash the server restarted with term %d", sh, k, m, got))
 			}
+			col.Cov("restart-term-vs-shown", 1)
 			continue
 		}
 		var rTerm uint64
